@@ -36,7 +36,10 @@ TransposeClauses(pre, i, post, flag, back) ==
           <<"exact-shift", ~wrap => Nout = {[x EXCEPT !.p = x.p + i] : x \in Nin}>>,
           <<"other-events-untouched", ~wrap => NonNoteBag(SelectSeq(post, LAMBDA m : m.ty # "ks"))
                                                 = NonNoteBag(SelectSeq(pre, LAMBDA m : m.ty # "ks"))>>,
-          <<"inverse-restores", (~wrap /\ back.done) => (Notes(back.evs) = Nin /\ back.flag = FALSE)>>,
+          (* a source note outside the playable range cannot be restored by the way back (the way back must itself end
+             inside the range), so the inverse law is stated for sources inside the range *)
+          <<"inverse-restores", (~wrap /\ back.done /\ \A x \in Nin : InRange(x.p))
+                                    => (Notes(back.evs) = Nin /\ back.flag = FALSE)>>,
           <<"keys-defined", \A j \in DOMAIN kout : kout[j].k \in Keys>>,
           <<"keys-transposed", (~wrap \/ Len(kout) = Len(kin)) =>
                  (Len(kout) = Len(kin) /\ \A j \in DOMAIN kin : (kin[j].k \in Keys /\ kout[j].k \in Keys)
